@@ -677,6 +677,23 @@ class SemantivaOrchestrator(ABC):
             if k not in params_out:
                 params_out[k] = serialize_json_safe(v)
                 source_out[k] = "default"
+        # Parameters with a signature default: same policy as run-time resolution
+        # (node > context > default), so that what the node received is recorded
+        for k, info in self._parameter_defaults(node.processor).items():
+            if k in params_out:
+                continue
+            if isinstance(info, ParameterInfo):
+                default = info.default
+            elif isinstance(info, dict):
+                default = info.get("default", _NO_DEFAULT)
+            else:
+                default = _NO_DEFAULT
+            if k in ctx_view:
+                params_out[k] = serialize_json_safe(ctx_view[k])
+                source_out[k] = "context"
+            elif default is not _NO_DEFAULT:
+                params_out[k] = serialize_json_safe(default)
+                source_out[k] = "default"
         return params_out, source_out
 
     def _extra_pre_checks(
